@@ -40,7 +40,10 @@ CLAIMED = {
         'invariant is kept by new/set (with frame), op is total (None out of range, no panic for any usize), collect_orbits builds orbit tables '
         'constant along both operations with r >= 1 = least return time at the representative, r/v/m of BOTH symbol representations equal the same '
         'spec functions of the tables (m = r*v, symmetric, constant on orbits, None out of range); the default DSet::r (generic over the interface): Some(r) is the '
-        'least positive number of steps of (operation i, then operation j) leading from d back to d, None out of range or where the walk leaves the defined operations.',
+        'least positive number of steps of (operation i, then operation j) leading from d back to d, None out of range or where the walk leaves the defined operations. '
+        'Orbit indices separate orbits (equal index only on one (i,i+1)-orbit; index ranges of different i disjoint). The trait DSym with the laws v constant on orbits and '
+        'm = r*v for whatever n is the least return time, proved for both implementors; the conversions as_dset, as_dsym, as_partial_dsym (real bodies): same operations, '
+        'v = 1 resp. the same v and the same m.',
    note='Trusted: Verus+Z3, vstd, <[T]>::fill spec, derived Clone; walk(e,[i,j]) by its std semantics. Not decided by contracts (bounded stand-in): '
         'Traversal/orbits/orbit_reps/connected/oriented predicates (stateful iterator over BTreeMap/VecDeque/HashSet), PartialDSet::grow; termination of orbit loops; '
         'the lift of the return-time statement from orbit representatives to every chamber is stated as spec-level lemmas only.',
@@ -63,8 +66,9 @@ CLAIMED = {
         'congruence, for a connected symbol the COARSEST one (every degree-respecting congruence refines it: the join of two such congruences is constructed and '
         'proved to be one), i.e. the image is the smallest quotient of that kind.',
    note='Trusted: Verus+Z3, vstd. Requires img0 != 0 (0 is the code\'s unassigned marker); fold/is_minimal require a complete symbol and chambers in range; termination. '
-        'Not decided by contracts (bounded stand-in only): totality/bijectivity of the morphism map (needs connectivity = Traversal), the degrees of the minimal image '
-        '(build_sym_using_ms is under an operations-only contract), covers vs minimal images. Iterator::fold in minimal_image by its std semantics; as_partial_dsym assumed.',
+        'The degrees of the minimal image are proved in the form m_image = r * (m_source / r) with r the orbit length in the image (equal to m_source whenever r divides it; that it '
+        'always does is a theorem about quotients and is not proved). Not decided by contracts (bounded stand-in only): totality/bijectivity of the morphism map '
+        '(needs connectivity = Traversal), covers vs minimal images. Iterator::fold in minimal_image by its std semantics; precondition v * size <= usize::MAX.',
    ref='5 C04', technique=TECH),
  'C11': dict(
    text='Unbounded proof (Verus/Z3) over the real bodies of CosetTable::{new, len, canon, get, set, join, merge, compact}, scan, scan_inverse, scan_both_ways, '
@@ -93,10 +97,12 @@ CLAIMED = {
    text='Unbounded proof (Verus/Z3) over the real bodies of build_set, build_sym_using_ms, orbit_reps_2d, cover and oriented_cover: for every complete base '
         'and every sheet map that is a consistent family of sheet permutations, the result is a well-formed complete symbol of nr_sheets*size chambers whose '
         'projection d -> (d-1) % size + 1 commutes with every operation; fibres have exactly nr_sheets elements (lemma); oriented_cover discharges the '
-        'sheet-map conditions for its xor map whatever the orientation routine returns.',
-   note='Trusted: Verus+Z3, vstd; is_oriented, partial_orientation, as_partial_dsym (Traversal-based / build_sym_using_vs) assumed, the last one as a 1-sheeted cover. '
-        'Not decided: degree preservation, connectedness, orientedness of the oriented cover, covers()/cover_for_table()/finite_universal_cover (depend on C09/C11/C12), '
-        'the count of covers per subgroup class.',
+        'sheet-map conditions for its xor map whatever the orientation routine returns. Degrees: orbit_reps_2d lists a representative of every orbit, build_sym_using_ms / '
+        'build_sym_using_vs write the prescribed value on every orbit (orbit indices separate orbits: collect_orbits), so that in cover, oriented_cover and as_partial_dsym '
+        '(all real bodies) chamber d gets the degree r * (m_base(pi d) / r), which is m_base(pi d) whenever the orbit length r in the cover divides it.',
+   note='Trusted: Verus+Z3, vstd; is_oriented and partial_orientation (Traversal-based) assumed: the contract holds whatever they return. Precondition v * size <= usize::MAX. '
+        'Not decided by contracts: that r always divides the base degree (holds for covers from coset tables of the fundamental group; depends on C09), connectedness, '
+        'orientedness of the oriented cover, covers()/cover_for_table()/finite_universal_cover (depend on C09/C11/C12), the count of covers per subgroup class (bounded stand-in).',
    ref='5 C05', technique=TECH),
 }
 
